@@ -403,6 +403,9 @@ def main_check(pid, tier, seed, replay_path=None):
     seen_known = [s for s in merged["violations"] if s in known_sigs]
     for s in sorted(seen_known):
         print("KNOWN-FINDING: property=%s %s" % (pid, known_sigs[s]["what"]))
+        if os.environ.get("VERIF_WRITE_KNOWN_REPLAYS") == "1":
+            v = merged["violations"][s]
+            print("  (developer mode) replay written: %s" % write_replay(pid, v["stage"], s, v))
     rc = 0
     replays = []
     for s in sorted(new_sigs):
